@@ -1,4 +1,6 @@
 mod uci_command;
+#[cfg(rce_verif)]
+pub mod verif;
 
 use build_time::build_time_utc;
 use std::io::BufRead;
@@ -70,6 +72,8 @@ impl Uci {
             self.execute_command(command).unwrap_or_else(|err| {
                 self.elog(format!("Failed to execute command: {err}"));
             });
+            #[cfg(rce_verif)]
+            verif::after_command(self);
         }
     }
 
@@ -161,6 +165,8 @@ impl Uci {
         self.join_handle = Some(thread::spawn(move || {
             search.search(&SimpleEvaluator, max_depth);
         }));
+        #[cfg(rce_verif)]
+        crate::search::verif::sched("after_spawn");
     }
 
     fn setoption(&self, name: &String, value: Option<&String>) -> Result<(), String> {
